@@ -113,6 +113,24 @@ Proof. exact Closed_edit_byte_interval. Qed.
 Theorem C05_are_joinable_keeps_the_cfg_closed : forall s a b, Closed s -> Closed (snd (are_joinable s a b)).
 Proof. exact Closed_are_joinable. Qed.
 
+(* From the module and the assembled patch to the clean-up, for an insertion (nothing replaced): when the CFG is closed, the block is in
+   the module, every edge of the assembled patch starts at a block of the patch or of the module and ends at such a block or at a proxy of
+   the patch or of the module, and no proxy of the patch is the target of two of its edges (the assembler's fresh proxies: C12), then the
+   state that insert() hands to _cleanup_modified_blocks -- after the return edges the patch's own `ret`s receive, the split and
+   insert_body -- has a closed CFG. *)
+Theorem C05_an_insertion_reaches_the_clean_up_with_a_closed_cfg :
+  forall s b offset p first last lastk k0 o0 z0 o1 z1 pbs rbs bi,
+    Closed s -> live s (NB b) -> bbi (the_blk s b) = Some bi ->
+    p_blocks p = (first, k0, o0, z0) :: pbs -> rev (p_blocks p) = (last, lastk, o1, z1) :: rbs ->
+    no_shared_proxy (p_cfg p) (p_proxies p) ->
+    EP (fun n => is_blk n /\ (live s n \/ In (nid n) (pblock_ids p)))
+       (fun n => live s n \/ match n with NB t => In t (pblock_ids p) | NP q => In q (p_proxies p) end) (p_cfg p) ->
+    forall end_block added_ft s1, insert_split s b offset 0 = Ok (end_block, added_ft, s1) ->
+    let code := bkind_eqb (bk (the_blk s b)) KCode in
+    let pp := if code then update_patch_return_edges s b (p_cfg p) (p_proxies p) else (p_cfg p, p_proxies p) in
+    Closed (insert_body s1 b first last lastk end_block added_ft bi offset 0 code p (fst pp) (snd pp)).
+Proof. exact Closed_insertion. Qed.
+
 (* the hypotheses are satisfiable: the two-block module of C05_closed_example, a one-block patch that branches to the tail and
    returns to a proxy of its own *)
 Example C05_insert_body_example :
@@ -133,4 +151,17 @@ Proof.
   - cbn. left. reflexivity.
   - intros e [<-|[<-|[]]]; cbn; repeat split; auto. left. eexists; split; [reflexivity|discriminate].
   - vm_compute. reflexivity.
+Qed.
+
+(* ... and so are those of the insertion theorem, on the same module: the patch is inserted at the end of block 0 *)
+Example C05_insertion_example :
+  let s := mk_st [(0%nat, mk_blk KCode (Some 100%nat) 0 1); (1%nat, mk_blk KCode (Some 100%nat) 1 1)] [(100%nat, mk_ival 0 [144; 195] [])] [(0%nat, [0%nat; 1%nat])]
+                 (RefCache.mk_rc [] []) [mk_edge' (NB 0%nat) (NB 1%nat) ET_FALLTHROUGH; mk_edge' (NB 1%nat) (NP 7%nat) ET_RETURN] [7%nat] [] [] [] [] [] [[]; []; []] [] [[]; []; []; []] None 900 in
+  let p := mk_patch [117; 0; 195] [(200%nat, KCode, 0, 3)] [mk_edge' (NB 200%nat) (NB 1%nat) ET_BRANCH; mk_edge' (NB 200%nat) (NP 300%nat) ET_RETURN] [] [300%nat] [] [] [] [] [] in
+  no_shared_proxy (p_cfg p) (p_proxies p) /\ bbi (the_blk s 0) = Some 100%nat /\
+  exists end_block added_ft s1, insert_split s 0 1 0 = Ok (end_block, added_ft, s1).
+Proof.
+  cbv zeta. split; [|split; [reflexivity|]].
+  - intros e e' [<-|[<-|[]]] [<-|[<-|[]]] Ht Hp Hq; cbn in *; try reflexivity; try discriminate.
+  - vm_compute. do 3 eexists. reflexivity.
 Qed.
